@@ -111,8 +111,14 @@ class DirHandler(BaseHandler):
             return False
 
         if time.time() - statval[stat.ST_MTIME] < self.cachetime:
-            with self.vfs.open(self.cachename, "rb") as fp:
-                self.fileentries = pickle.load(fp)
+            try:
+                with self.vfs.open(self.cachename, "rb") as fp:
+                    self.fileentries = pickle.load(fp)
+            except Exception:
+                # A truncated or corrupt cache file (a writer that crashed or
+                # has not finished yet, a full disk).  Ignore it; the listing
+                # is rebuilt and the cache rewritten.
+                return False
             self.fromcache = True
             return True
         return False
